@@ -193,6 +193,20 @@ CHECKS["C06"] = dict(
     ref="§4 C06",
     note=COMMON_NOTE + " Proof covers seed handling only; reproducibility and the absence of global randomness are differential-tested.")
 
+CHECKS["C16"] = dict(
+    technique="Coq proof over a file model with a process-local buffer any prefix of which may have reached the OS (Model/Files.v, "
+              "Proofs/FilesProofs.v, Props/C16.v) + correspondence on the logged file operations of real runs and on REAL process "
+              "deaths (subprocess killed with os._exit after the k-th file operation): content on disk must be a model crash state",
+    text="Theorems for any payloads and any prior content: after n logger calls the file is the old content plus n complete flushed "
+         "lines; after a trajectory call one frame more, earlier bytes untouched; at EVERY crash point inside a call, with any part of "
+         "the buffer pushed, completed lines/frames are intact followed by a prefix of the current one; after a restart call the file "
+         "is exactly the latest document (also when shorter). Refuted for the shipped sequence: between truncate and flush a crash "
+         "leaves an empty or partial restart file (open finding). Partial: process death only, not power loss.",
+    ref="§4 C16",
+    note=COMMON_NOTE + " CPython text-file buffering and the host file system under process death are modelled and validated by the real "
+         "crashes. The theorems are about the operation shapes the code emits today (one write per log line, seek/truncate/write/flush); "
+         "a different shape is reported as a broken correspondence.")
+
 NA_REASON = "check not built yet in this round (see DESIGN.md §8 order of construction); no weaker technique substituted"
 
 
